@@ -102,7 +102,7 @@ struct fnobj {
     }
   }
 };
-inline int combine(int x, int y) { return (int)(((long long)x * 31 + y) % 1000003); }
+inline int combine(int x, int y) { long long r = ((long long)x * 31 + y) % 1000003; return (int)(r < 0 ? r + 1000003 : r); }  // Z.modulo: result in [0, m)
 
 // ---- leaves -------------------------------------------------------------------------------------------
 struct leaf_ctl {
